@@ -332,7 +332,16 @@ ROLES = {
     12: {(): "string"},
     16: {(0,): "map", (1,): "umap", (2,): "string", (3,): "set", (4,): "umap"},
     18: {(): "umap"},
+    25: {(): "map"},
+    26: {(): "set"},
 }
+# shapes that only take part in the parse / encode properties (C04, C05)
+PARSE_ONLY = {25, 26}
+
+
+def family_ops():
+    return [f for f in family() if f[0] not in PARSE_ONLY]
+
 
 
 _UTF8 = {2: ["\u00e9", "\u00df", "\u03bb"], 3: ["\u20ac", "\u4e2d"], 4: ["\U0001F600", "\U00010348"]}
